@@ -75,6 +75,10 @@ def gen(R, n):
         for i in range(n):
             X[i][q[i]] += extra
         Xf = [[Fraction(float(x)) for x in row] for row in X]
+        sums = {sum(r) for r in Xf} | {sum(Xf[i][j] for i in range(n)) for j in range(n)}
+        if len(sums) != 1:
+            # outside the property's domain (would be a generator slip, see DESIGN section 15): never hand it to the judge
+            return [[Fraction(0)] * n for _ in range(n)], "zero", True
         return Xf, kind, False
     if kind == "zero":
         # the zero matrix is balanced too (common sum 0): the decomposition is empty
